@@ -98,6 +98,8 @@ func removalsIn(c *an.Ctx, fn *ssa.Function) []removal {
 			out = append(out, removal{kind, call, arg})
 		case name == "store.(*batch).DeleteRange":
 			out = append(out, removal{"pending", call, t.Of(call.Call.Args[1]) + ".." + t.Of(call.Call.Args[2])})
+		case isBuiltinDeleteOnBatch(call) && fn.Signature.Recv() != nil && strings.Contains(fn.Signature.Recv().Type().String(), "store.batch["):
+			// inside a method of the pending batch itself: the call of that method is the event
 		case isBuiltinDeleteOnBatch(call):
 			// a removal from the pending batch's maps written out in place (a spliced-in helper)
 			out = append(out, removal{"pending", call, t.Of(call.Call.Args[1]) + ".." + t.Of(call.Call.Args[1])})
